@@ -950,6 +950,58 @@ func ruleEscapes(p *Program, r *Reporter) {
 			return true
 		}
 		iff, ok := n.(*ast.IfStmt)
+		// the same table kept in a package-level map that is never written:
+		// `if to, ok := escapes[l.ch]; ok { l.ch = to }`
+		if ok && iff.Init != nil && len(iff.Body.List) == 1 {
+			if as, isAs := iff.Init.(*ast.AssignStmt); isAs && len(as.Lhs) == 2 && len(as.Rhs) == 1 {
+				if ix, isIx := ast.Unparen(as.Rhs[0]).(*ast.IndexExpr); isIx && isCh(ix.Index) {
+					if id, isId := ast.Unparen(ix.X).(*ast.Ident); isId {
+						if gv, isVar := info.ObjectOf(id).(*types.Var); isVar && gv.Pkg() != nil && gv.Parent() == gv.Pkg().Scope() {
+							body, isBody := iff.Body.List[0].(*ast.AssignStmt)
+							toID, _ := as.Lhs[0].(*ast.Ident)
+							okID, _ := as.Lhs[1].(*ast.Ident)
+							condID, _ := ast.Unparen(iff.Cond).(*ast.Ident)
+							if isBody && toID != nil && okID != nil && condID != nil && info.ObjectOf(condID) == info.ObjectOf(okID) && len(body.Lhs) == 1 && isCh(body.Lhs[0]) {
+								if rid, isR := ast.Unparen(body.Rhs[0]).(*ast.Ident); isR && info.ObjectOf(rid) == info.ObjectOf(toID) {
+									var g *ssa.Global
+									if sp := p.SSAPkg[Mod+"/lexer"]; sp != nil {
+										g, _ = sp.Members[gv.Name()].(*ssa.Global)
+									}
+									if g != nil && globalNeverWritten(p, g) {
+										for _, f := range pk.Syntax {
+											ast.Inspect(f, func(m ast.Node) bool {
+												vs, isVS := m.(*ast.ValueSpec)
+												if !isVS {
+													return true
+												}
+												for i, nm := range vs.Names {
+													if info.Defs[nm] != types.Object(gv) || i >= len(vs.Values) {
+														continue
+													}
+													if cl, isCL := vs.Values[i].(*ast.CompositeLit); isCL {
+														for _, el := range cl.Elts {
+															if kv, isKV := el.(*ast.KeyValueExpr); isKV {
+																from, ok1 := runeConst(kv.Key)
+																to, ok2 := runeConst(kv.Value)
+																if ok1 && ok2 {
+																	found[from] = to
+																	pos[from] = kv.Pos()
+																}
+															}
+														}
+													}
+												}
+												return true
+											})
+										}
+									}
+								}
+							}
+						}
+					}
+				}
+			}
+		}
 		// (an else-if chain is a sequence of such tests: each link is visited)
 		if !ok || iff.Init != nil || len(iff.Body.List) != 1 {
 			return true
